@@ -179,6 +179,7 @@ type SynthOpts struct {
 	Tight      bool // no unused-but-coded symbols: short codes, packed multi-symbol table entries
 	SmallAlpha int  // >0: literals drawn from this many symbols
 	ForceKind  int  // 0 = any block type; 1 = only fixed-Huffman blocks; 2 = only dynamic blocks
+	LastStored bool // the final block is a stored block
 }
 
 var faultNames = []string{"dist-beyond", "unassigned-code", "oversubscribed", "missing-eob", "repeat-nothing", "run-past-count", "bad-nlen", "btype3", "len-286", "dist-30", "unassigned-dist", "no-dist-code-used", "oversub-cl", "hlit-range", "unassigned-dist-long", "stale-dist", "stale-lit"}
@@ -836,6 +837,9 @@ func Synthesize(r *Rng, o SynthOpts) ([]byte, []byte, string) {
 			kind = 1
 		case 2:
 			kind = 2
+		}
+		if o.LastStored && final {
+			kind = 0
 		}
 		if (o.Fault == "stale-dist" || o.Fault == "stale-lit") && b == faultBlock-1 {
 			kind = 2
